@@ -6,6 +6,7 @@ from hypothesis import strategies as st
 from pbt import im as imm
 from pbt.props.c01 import diff
 from pbt.runner import must, check
+from pbt.poison import poison
 
 PROPERTY = "C02"
 LEVEL = "exploration"
@@ -44,6 +45,7 @@ def roundtrip(case):
     check(text2 == text, "second-dump-differs", lambda: "first and second dump differ: %s" % diff(json.loads(text), json.loads(text2)))
     d = diff(imm.expected_doc(desc), json.loads(text))
     check(d is None, "document-differs-from-description", lambda: "expected document vs dumps(): %s" % d)
+    poison(obj), poison(again)
     return {"nontrivial": imm.is_nontrivial(desc), "labels": imm.labels(desc)}
 
 
